@@ -57,6 +57,9 @@ func init() {
 		{"C07", "adder", props.C07adder},
 		{"C05", "adder", props.C07adder},
 		{"C17", "garble", props.C01},
+		{"C03", "truncmul", props.TruncatedProducts("compiler/mpa", "compiler/ast", "compiler/ssa")},
+		{"C12", "truncmul", props.TruncatedProducts("compiler/mpa", "compiler/ast", "compiler/ssa")},
+		{"C20", "truncmul", props.TruncatedProducts("vole", "bmr", "ot/mpint")},
 		{"C13", "splitbits", props.SplitBits},
 		{"C01", "splitbits", props.SplitBits},
 		{"C02", "splitbits", props.SplitBits},
